@@ -83,6 +83,12 @@ static bool fixture(S &s, const Params &p, int needs) {
     ok = ok && cif_container_create_frame(s.blk, U(u"f"), &s.frame) == CIF_OK && cif_container_set_value(s.frame, U(u"_f1"), nullptr) == CIF_OK
          && cif_container_get_category_loop(s.blk, U(u""), &s.sloop) == CIF_OK;
     if (ok && (needs & 2)) ok = cif_loop_get_packets(s.loop, &s.it) == CIF_OK && cif_pktitr_next_packet(s.it, nullptr) == CIF_OK;
+    if (ok && (needs & 2048)) {   // an update of the current packet, pending in the iterator's transaction
+        cif_packet_tp *up = nullptr; cif_value_tp *nv = nullptr; UChar *un[] = {(UChar *) u"_l1", nullptr};
+        ok = cif_packet_create(&up, un) == CIF_OK && cif_value_create(CIF_UNK_KIND, &nv) == CIF_OK && cif_value_copy_char(nv, U(u"pending update")) == CIF_OK
+             && cif_packet_set_item(up, U(u"_l1"), nv) == CIF_OK && cif_pktitr_update_packet(s.it, up) == CIF_OK;
+        cif_value_free(nv); cif_packet_free(up);
+    }
     return ok;
 }
 
@@ -190,6 +196,14 @@ static std::vector<Scenario> make_scenarios() {
     // columns, padded packets) allocate too
     v.push_back(Scenario{"cif_parse(defective document, errors accepted, into existing)", 1, true, false, [](S &s, const Params &p) -> int { (void) p;  struct cif_parse_opts_s *o = nullptr; int rc = cif_parse_options_create(&o); if (rc != CIF_OK) return rc; o->error_callback = cif_parse_error_ignore; FILE *f = ph::mem_file(defective_doc()); cif_tp *t = s.cif; rc = cif_parse(f, o, &t); fclose(f); cm::ufree(o); return rc;  }, [](S &s) { (void) s;  }});
     v.push_back(Scenario{"cif_parse(defective document, errors accepted, syntax only)", 0, false, false, [](S &s, const Params &p) -> int { (void) s; (void) p;  struct cif_parse_opts_s *o = nullptr; int rc = cif_parse_options_create(&o); if (rc != CIF_OK) return rc; o->error_callback = cif_parse_error_ignore; FILE *f = ph::mem_file(defective_doc()); rc = cif_parse(f, o, nullptr); fclose(f); cm::ufree(o); return rc;  }, [](S &s) { (void) s;  }});
+    // read-only calls made while an iterator with a pending (uncommitted) update is open: whatever the call returns, the iterator stays
+    // usable, can be closed, and its pending update is committed (needs bit 2048; checked after every fault point)
+    v.push_back(Scenario{"cif_container_get_all_loops(iterator with a pending update open)", 1 | 2 | 2048, false, false, [](S &s, const Params &p) -> int { (void) s; (void) p;  return cif_container_get_all_loops(s.blk, (cif_loop_tp ***) &s.out_ptr);  }, [](S &s) { (void) s;  free_handles((void **) s.out_ptr, fl);  }});
+    v.push_back(Scenario{"cif_loop_get_names(iterator with a pending update open)", 1 | 2 | 2048, false, false, [](S &s, const Params &p) -> int { (void) s; (void) p;  return cif_loop_get_names(s.sloop, (UChar ***) &s.out_ptr);  }, [](S &s) { (void) s;  if (s.out_ptr) { for (UChar **q = (UChar **) s.out_ptr; *q; q++) cm::ufree(*q); cm::ufree(s.out_ptr); }  }});
+    v.push_back(Scenario{"cif_container_get_item_loop(iterator with a pending update open)", 1 | 2 | 2048, false, false, [](S &s, const Params &p) -> int { (void) s; (void) p;  return cif_container_get_item_loop(s.blk, U(u"_S2"), (cif_loop_tp **) &s.out_ptr);  }, [](S &s) { (void) s;  if (s.out_ptr) cif_loop_free((cif_loop_tp *) s.out_ptr);  }});
+    v.push_back(Scenario{"cif_container_get_value(iterator with a pending update open)", 1 | 2 | 2048, false, false, [](S &s, const Params &p) -> int { (void) s; (void) p;  return cif_container_get_value(s.blk, U(u"_S1"), (cif_value_tp **) &s.out_ptr);  }, [](S &s) { (void) s;  cif_value_free((cif_value_tp *) s.out_ptr);  }});
+    v.push_back(Scenario{"cif_container_get_all_frames(iterator with a pending update open)", 1 | 2 | 2048, false, false, [](S &s, const Params &p) -> int { (void) s; (void) p;  return cif_container_get_all_frames(s.blk, (cif_frame_tp ***) &s.out_ptr);  }, [](S &s) { (void) s;  free_handles((void **) s.out_ptr, fc);  }});
+    v.push_back(Scenario{"cif_get_all_blocks(iterator with a pending update open)", 1 | 2 | 2048, false, false, [](S &s, const Params &p) -> int { (void) s; (void) p;  return cif_get_all_blocks(s.cif, (cif_block_tp ***) &s.out_ptr);  }, [](S &s) { (void) s;  free_handles((void **) s.out_ptr, fc);  }});
     return v;
 }
 static const std::vector<Scenario> &scenarios() { static std::vector<Scenario> v = make_scenarios(); return v; }
@@ -252,6 +266,7 @@ static std::string run_case(const CaseFile &c) {
         r0 = sc.call(s, p);
         n_lib = verif_total(); n_sql = g_sq_count;
         sc.release(s); s.out_ptr = nullptr;
+        if (s.it && (sc.needs & 2048)) { int cr = cif_pktitr_close(s.it); s.it = nullptr; if (cr != CIF_OK) return std::string("scenario ") + sc.name + ": the iterator cannot be closed without faults: " + cm::code_name(cr); }
         if (s.it) { (void) cif_pktitr_abort(s.it); s.it = nullptr; }
         post0 = snapshot(s);
     }
@@ -280,6 +295,8 @@ static std::string run_case(const CaseFile &c) {
         if (rc == CIF_OK || rc == CIF_FINISHED) {
             // the library survived the failed allocation: then the outcome must be the fault-free one
             sc.release(s); s.out_ptr = nullptr;
+            if (s.it && (sc.needs & 2048) && sqlite_side) { (void) cif_pktitr_abort(s.it); s.it = nullptr; continue; }   // (see below: the storage engine may have rolled the iterator's transaction back)
+            if (s.it && (sc.needs & 2048)) { int cr = cif_pktitr_close(s.it); s.it = nullptr; if (cr != CIF_OK) { msg = at + "returned " + cm::code_name(rc) + ", but afterwards the open iterator could not be closed: " + cm::code_name(cr); continue; } }
             if (s.it && !(sc.needs & 2)) { (void) cif_pktitr_abort(s.it); s.it = nullptr; }
             if (s.it) { (void) cif_pktitr_abort(s.it); s.it = nullptr; }
             std::string post = snapshot(s);
@@ -312,6 +329,20 @@ static std::string run_case(const CaseFile &c) {
             }
         } else {
             // iterator scenarios: the iterator (if it still exists) can be aborted and the CIF read afterwards
+            if (s.it && (sc.needs & 2048) && sqlite_side) {
+                // a statement that runs out of memory inside the storage engine makes SQLite roll back the WHOLE active transaction
+                // (sqlite3VdbeHalt: "we are forced to roll back the active transaction") -- the iterator's transaction with it; nothing
+                // the library does can keep the pending update, so only the weaker clause below (abortable, CIF readable) applies
+                int cr = cif_pktitr_close(s.it); s.it = nullptr;
+                label(cr == CIF_OK ? "iterator-survived-storage-fault" : "iterator-lost-to-storage-rollback");
+            }
+            if (s.it && (sc.needs & 2048)) {
+                // the failed call was a read-only one on another part of the CIF: the iterator and its pending update must have survived it
+                int cr = cif_pktitr_close(s.it); s.it = nullptr;
+                if (cr != CIF_OK) msg = at + "failed with " + cm::code_name(rc) + "; afterwards the open iterator could not be closed (" + cm::code_name(cr) + "): its pending update is lost";
+                else { std::string post = snapshot(s); if (cif_part(post) != cif_part(post0)) msg = at + "failed with " + cm::code_name(rc) + "; the iterator was then closed, but the CIF is not what the fault-free run leaves\n--- fault-free\n" + cif_part(post0) + "\n--- with fault\n" + cif_part(post); }
+                if (!msg.empty()) break;
+            }
             if (s.it) { int ar = cif_pktitr_abort(s.it); s.it = nullptr; if (ar != CIF_OK) label("abort-after-fault:" + std::string(cm::code_name(ar))); }
             Doc d; int dr = cm::dump(s.cif, d);
             if (dr != CIF_OK) msg = at + "afterwards the CIF cannot be read: " + cm::code_name(dr);
